@@ -814,11 +814,18 @@ func main() {
 			}
 			type tv struct{ class, text string }
 			variants := func(h string) []tv {
-				k := 2 * (1 + rng.Intn(len(h)/2-2))
+				k := 0
+				if len(h) >= 6 {
+					k = 2 * (1 + rng.Intn(len(h)/2-2))
+				}
+				k2 := k + 2
+				if k2 > len(h) {
+					k2 = len(h)
+				}
 				return []tv{
 					{"honest", "0x" + h}, {"uppercase", "0x" + strings.ToUpper(h)},
 					{"trailing-nibble", "0x" + h + "0"}, {"trailing-junk", "0x" + h + "zz"}, {"trailing-byte", "0x" + h + "00"},
-					{"trailing-space", "0x" + h + " "}, {"embedded-junk", "0x" + h[:k] + "zz" + h[k+2:]},
+					{"trailing-space", "0x" + h + " "}, {"embedded-junk", "0x" + h[:k] + "zz" + h[k2:]},
 					{"prefix-0X", "0X" + h}, {"prefix-double", "0x0x" + h}, {"prefix-missing", h},
 					{"short-odd", "0x" + h[:len(h)-1]}, {"leading-space", "0x " + h}, {"only-prefix", "0x"}, {"empty", ""},
 					{"junk-then-honest", "0xzz" + h}, {"sign", "0x-" + h}, {"plus", "0x+" + h}, {"underscore", "0x" + h[:k] + "_" + h[k:]},
@@ -1643,6 +1650,24 @@ func main() {
 				prod := new(bn256.GT).Add(bn256.Pair(Pr, Qr), bn256.Pair(Pr, new(bn256.G2).Neg(Qr)))
 				return bn256.PairIsEuqal(prod, gtOne) && bn256.PairIsEuqal(bn256.Pair(Pr, new(bn256.G2).Add(Qr, new(bn256.G2).Neg(Qr))), gtOne)
 			})
+			// the same with Q / P in every representation (Neg of an AFFINE point once left its cached z^2 at 0)
+			for qn, Qx := range map[string]*bn256.G2{"generator": new(bn256.G2).ScalarBaseMult(big.NewInt(1)), "parsed-generator": g2(bn256.GetG2Base().Marshal()),
+				"parsed-random": g2(new(bn256.G2).Set(Qr).Marshal()), "fresh-random": new(bn256.G2).ScalarBaseMult(randScalar(rng)), "parsed-public-key": g2(pkb)} {
+				Qx := Qx
+				chk("e(P,Q)e(P,-Q)=1:Q="+qn, func() bool {
+					e1 := bn256.Pair(Pr, Qx)
+					e2 := bn256.Pair(Pr, new(bn256.G2).Neg(Qx))
+					return bn256.PairIsEuqal(new(bn256.GT).Add(e1, e2), gtOne) && bn256.PairIsEuqal(e2, new(bn256.GT).Neg(e1))
+				})
+			}
+			for pn, Px := range map[string]*bn256.G1{"generator": new(bn256.G1).ScalarBaseMult(big.NewInt(1)), "parsed-random": g1(new(bn256.G1).Set(Pr).Marshal()), "hash-point": H, "fresh-random": Pr} {
+				Px := Px
+				chk("e(P,Q)e(-P,Q)=1:P="+pn, func() bool {
+					e1 := bn256.Pair(Px, Qr)
+					e2 := bn256.Pair(new(bn256.G1).Neg(Px), Qr)
+					return bn256.PairIsEuqal(new(bn256.GT).Add(e1, e2), gtOne) && bn256.PairIsEuqal(e2, new(bn256.GT).Neg(e1))
+				})
+			}
 			chk("e(P,Q)e(-P,Q)=1=e(P+(-P),Q)", func() bool {
 				prod := new(bn256.GT).Add(bn256.Pair(Pr, Qr), bn256.Pair(new(bn256.G1).Neg(Pr), Qr))
 				return bn256.PairIsEuqal(prod, gtOne) && bn256.PairIsEuqal(bn256.Pair(new(bn256.G1).Add(Pr, new(bn256.G1).Neg(Pr)), Qr), gtOne)
